@@ -480,7 +480,7 @@ def register_timing_tasks(broker: ScriptedBroker, tr: Trace, sc: Dict[str, Any])
     nbar = sum(1 for m in specs if m.get("barrier"))
     bar = {"n": 0, "ev": None, "need": nbar}
 
-    async def atask(i: int, extra: Any = None) -> Any:
+    async def atask(i: int, extra: Any = None, target: Any = None, args: Any = None, kwargs: Any = None) -> Any:
         sp = specs[i]
         tr.add("enter", i)
         if sp.get("clock_step"):
@@ -530,7 +530,7 @@ def register_timing_tasks(broker: ScriptedBroker, tr: Trace, sc: Dict[str, Any])
             finally:
                 tr.add("exit", i)
 
-    def stask(i: int, extra: Any = None) -> Any:
+    def stask(i: int, extra: Any = None, target: Any = None, args: Any = None, kwargs: Any = None) -> Any:
         sp = specs[i]
         tr.add("enter", i)
         try:
@@ -623,6 +623,9 @@ def build_script(broker: ScriptedBroker, sc: Dict[str, Any]) -> List[Any]:
             (late if sp.get("timeout_late") else labels)["timeout"] = sp["timeout"]
         args = sp.get("args", [i])
         kwargs = sp.get("kwargs") or ({"conn": "postgres://x"} if kind == "plaincls" else None)
+        if sp.get("kwnames") and kind in ("async", "sync"):
+            # keyword arguments whose NAMES are ordinary words the worker's own plumbing uses too (target, args, kwargs)
+            kwargs = {**(kwargs or {}), **{n: f"{n}-of-{i}" for n in sp["kwnames"]}}
         if sp.get("extra") and kind in ("async", "sync"):
             kwargs = {**(kwargs or {}), "extra": extra_value(sp["extra"])}
         m = make_message(broker, tname, sp.get("dup_of", i), args, kwargs, labels)
